@@ -142,17 +142,24 @@ func (r *rateLimiter) UpdateRateLimitConditionStatus(upstream string, condition 
 		return nil, fmt.Errorf("limit store for upstream %s upstream shard %v not found", upstream, shardId)
 	}
 
-	upstreamCondition, err := limitStore.Get(condition.Spec.UpstreamCluster, upstreamStateConditionName(condition.Spec.UpstreamCluster))
-	if err != nil {
-		return nil, err
-	}
-
 	mutex := r.upstreamLock[condition.Spec.UpstreamCluster]
 	if mutex == nil {
+		// unknown upstream: report it the way the store does
+		if _, err := limitStore.Get(condition.Spec.UpstreamCluster, upstreamStateConditionName(condition.Spec.UpstreamCluster)); err != nil {
+			return nil, err
+		}
 		return nil, fmt.Errorf("interval error: upstreamLock not exist")
 	}
 	mutex.Lock()
 	defer mutex.Unlock()
+
+	// the state of the upstream is read under its lock: a store may replace the
+	// stored object on every save, and an object read before the lock was taken
+	// misses what the report or limit change that held the lock has written
+	upstreamCondition, err := limitStore.Get(condition.Spec.UpstreamCluster, upstreamStateConditionName(condition.Spec.UpstreamCluster))
+	if err != nil {
+		return nil, err
+	}
 
 	oldCondition, err := limitStore.Get(condition.Spec.UpstreamCluster, condition.Name)
 	if errors.IsNotFound(err) {
